@@ -88,12 +88,17 @@ def classify_harness(rec, payload):
 
 
 def gen_case(rng: random.Random, tier: str) -> dict:
-    mode = rng.choices(["config", "observe", "interleave"], [1, 3, 0.6])[0]
+    mode = rng.choices(["config", "observe", "interleave"], [1, 3, 1.0])[0]
     if mode == "interleave":
         multi = [n for n in _names if n.endswith((".7z", ".zip", ".tar", ".tar.gz", ".tgz", ".mbox", ".tar.bz2", ".tar.xz"))]
         a = rng.choice(multi)
         same = [n for n in multi if n.rsplit(".", 1)[-1] == a.rsplit(".", 1)[-1]]
         b = rng.choice(same) if rng.random() < 0.45 else rng.choice(multi if rng.random() < 0.7 else _names)
+        if rng.random() < 0.4:
+            # any two documents of one format (or the same document twice, under two paths): results that share an object show here
+            a = rng.choice([n for n in _names if len(_docs[n]) < 400_000])
+            fam = [n for n in _names if n.rsplit(".", 1)[-1].lower() == a.rsplit(".", 1)[-1].lower() and len(_docs[n]) < 400_000]
+            b = a if rng.random() < 0.4 else rng.choice(fam)
         return {"mode": "interleave", "docs": [a, b], "pattern": [rng.randrange(2) for _ in range(rng.randrange(2, 12))]}
     if mode == "config":
         nd = rng.choice([6, 10, 14]) if tier == "quick" else rng.choice([8, 14, 20])
@@ -420,9 +425,9 @@ def _run_interleave(case):
     import tempfile
     tempfile.tempdir = tmp
 
-    def gen(n):
+    def gen(n, slot=0):
         def g():  # routing happens inside: an unsupported name is an outcome of the run, not a harness error
-            yield from corpus.extractor_for(n)(io.BytesIO(_docs[n]), SIMPATH + "/" + os.path.basename(n))
+            yield from corpus.extractor_for(n)(io.BytesIO(_docs[n]), SIMPATH + f"/slot{slot}/" + os.path.basename(n))
         return g()
 
     def drain(g):
@@ -434,9 +439,10 @@ def _run_interleave(case):
             exc = type(e).__name__
         return out, exc
 
-    alone = [drain(gen(n)) for n in case["docs"]]
-    gens = [gen(n) for n in case["docs"]]
+    alone = [drain(gen(n, gi)) for gi, n in enumerate(case["docs"])]
+    gens = [gen(n, gi) for gi, n in enumerate(case["docs"])]
     outs, excs, alive = [[], []], [None, None], [True, True]
+    held = [[], []]  # the caller keeps every result: what a result says must not change when other extractions go on
     pattern = list(case["pattern"])
     i = 0
     while any(alive):
@@ -445,12 +451,24 @@ def _run_interleave(case):
         if not alive[gi]:
             continue
         try:
-            outs[gi].append(canon.digest(next(gens[gi]).to_json()))
+            r = next(gens[gi])
+            held[gi].append(r)
+            outs[gi].append(canon.digest(r.to_json()))
         except StopIteration:
             alive[gi] = False
         except Exception as e:
             alive[gi] = False
             excs[gi] = type(e).__name__
+    for gi, n in enumerate(case["docs"]):
+        later = []
+        for r in held[gi]:
+            try:
+                later.append(canon.digest(r.to_json()))
+            except Exception as e:
+                later.append("exc:" + type(e).__name__)
+        if later != outs[gi]:
+            viol.append({"class": "nondeterministic_result", "sig": f"{n.rsplit('.', 1)[-1]}|result_changed_by_later_extraction",
+                         "detail": f"{n}: to_json() of a result held by the caller changed after further extraction work ({case['docs'][1 - gi]}) in the same process"})
     for gi, n in enumerate(case["docs"]):
         log.ev("interleave", n, len(outs[gi]), excs[gi], len(alone[gi][0]), alone[gi][1])
         if (outs[gi], excs[gi]) != alone[gi]:
